@@ -148,7 +148,7 @@ def mutate_result(r, seen=None):
     if id(r) in seen:
         return
     seen.add(id(r))
-    if hasattr(r, "_load") and callable(r):
+    if env.is_synced(r):
         try:
             if hasattr(r, "keys"):
                 r["__mut__"] = 1
@@ -163,7 +163,7 @@ def mutate_result(r, seen=None):
         r["__mut__"] = 1
     elif isinstance(r, list):
         for x in list(r):
-            if not (hasattr(x, "_load") and callable(x)):
+            if not env.is_synced(x):
                 mutate_result(x, seen)
         r.append("__mut__")
     elif isinstance(r, tuple):
